@@ -120,6 +120,8 @@ def integerValuesTail (sel numEntries nc : Nat) : DecM (List Int) := do
   let numValues := numEntries * nc
   alloc "integer_decoder.portable_attribute" (4 * numValues)
   require (numEntries > 0)
+  -- the model keeps the values in lists: it does not follow streams that declare more than 2^24 values
+  if numValues > 2 ^ 24 then failWith (.unsupported "declared number of values beyond the model's limit") else
   let compressed ← rdU8
   let raw : List Nat ←
     if compressed > 0 then lift (decodeSymbolsV (ver < bsVersion 2 0) numValues nc)
